@@ -5,8 +5,13 @@ DEDUCTIVE = [
     ("rdp", "kneeliverse.rdp.rdp"),
     ("rdp", "kneeliverse.rdp.compute_removed_points"),
 ]
-EXPLANATION = "wip"
-LEVEL_TEXT = "wip"
-LEVEL_NOTE = "wip"
+EXPLANATION = ("Threshold RDP (rdp.rdp): termination within 2n-3 loop iterations (variant), strictly increasing result from 0 to n-1 and the "
+               "removed table are proved for all n, both distances and all five metrics in mode U (numeric leaf functions uninterpreted, so "
+               "no floating-point assumption). compute_removed_points is proved. The other simplifiers (rdp_fixed, grdp, mp_grdp, "
+               "min_point_rdp) are covered by the bounded layer only (labelled).")
+LEVEL_TEXT = ("Proof for threshold RDP and the removed-table helper (VCs from the real source, loop invariant: the work stack tiles "
+              "[frontier, n), variant 2(n-1-frontier)-|stack|); bounded run-time layer for the remaining simplifiers, with the number of "
+              "refinement steps counted against a linear bound.")
+LEVEL_NOTE = ("Summaries of lf.linear_fit_points, lf.*_distance_points, rdp.compute_cost_coef are assumed total and deterministic "
+              "(uninterpreted, mode U); np.argmax contract assumed; A-NAN. rdp_fixed/grdp/mp_grdp/min_point_rdp: bounded only.")
 TECHNIQUE = "contract-based deductive verification (AST->VC, z3) of the real functions; bounded run-time layer as labelled stand-in"
-CLAIMED = False
